@@ -282,6 +282,28 @@ fn scenario(cx: &mut Ctx, rng: &mut Rng) {
                 same = same && (t1 == t2) == (u1 == u2) && (t1 <= t2) == (u1 <= u2) && (t1 >= t2) == (u1 >= u2) && t1.cmp(&t2) == u1.cmp(&u2)
                     && format!("{}|{:?}", &*t1, &*t1) == format!("{}|{:?}", &*u1, &*u1) && format!("{}", t1) == format!("{}", u1) && format!("{:?}", t1) == format!("{:?}", u1);
             }
+            // a box compared with itself, and two boxes at one address (zero-sized payloads), still compare
+            // as their values do: non-reflexive payloads (NaN, a type whose eq is always false)
+            {
+                struct Never;
+                impl PartialEq for Never { fn eq(&self, _: &Never) -> bool { false } }
+                impl PartialOrd for Never { fn partial_cmp(&self, _: &Never) -> Option<std::cmp::Ordering> { None } }
+                let (p1, q1) = (BBox::new_in(f1, cx.bump), Box::new(f1));
+                #[allow(clippy::eq_op)]
+                {
+                    same = same && (p1 == p1) == (q1 == q1) && (p1 != p1) == (q1 != q1) && (p1 <= p1) == (q1 <= q1) && (p1 >= p1) == (q1 >= q1)
+                        && (p1 < p1) == (q1 < q1) && p1.partial_cmp(&p1) == q1.partial_cmp(&q1);
+                    let (r1, r2) = (&p1, &p1);
+                    same = same && (r1 == r2) == (f1 == f1) && (r1 != r2) == (f1 != f1);
+                }
+                let ps: BBox<[f64]> = BBox::from_iter_in([f1, f2].iter().copied(), cx.bump);
+                let qs: Box<[f64]> = vec![f1, f2].into_boxed_slice();
+                same = same && (ps == ps) == (qs == qs) && (ps != ps) == (qs != qs) && ps.partial_cmp(&ps) == qs.partial_cmp(&qs);
+                let (z1, z2) = (BBox::new_in(Never, cx.bump), BBox::new_in(Never, cx.bump));
+                let (y1, y2) = (Box::new(Never), Box::new(Never));
+                same = same && (z1 == z2) == (y1 == y2) && (z1 != z2) == (y1 != y2) && (z1 == z1) == (y1 == y1) && (z1 <= z2) == (y1 <= y2)
+                    && z1.partial_cmp(&z2) == y1.partial_cmp(&y2);
+            }
             // formatting forwards the caller's width, fill, alignment, precision, sign and '#' flags
             {
                 let (p1, q1) = (BBox::new_in(f1, cx.bump), Box::new(f1));
